@@ -16,6 +16,8 @@ pub const DEFAULT_SEED: u64 = 20260927;
 pub fn prop_names(prop: &str) -> &'static [&'static str] {
     match prop {
         "C07" => crate::c07::SERIALIZERS,
+        "C13" => crate::c13::NAMES,
+        "C17" => crate::c17::NAMES,
         _ => &[],
     }
 }
@@ -23,6 +25,8 @@ pub fn prop_names(prop: &str) -> &'static [&'static str] {
 pub fn generate(prop: &str, rng: &mut Rng, tier: &str) -> Scenario {
     match prop {
         "C07" => crate::c07::generate(rng, tier),
+        "C13" => crate::c13::generate(rng, tier),
+        "C17" => crate::c17::generate(rng, tier),
         _ => panic!("HARNESS: unknown property {prop}"),
     }
 }
@@ -30,6 +34,8 @@ pub fn generate(prop: &str, rng: &mut Rng, tier: &str) -> Scenario {
 pub fn execute(sc: &Scenario, verbose: bool) -> RunOut {
     match sc.property.as_str() {
         "C07" => crate::c07::execute(sc, verbose),
+        "C13" => crate::c13::execute(sc, verbose),
+        "C17" => crate::c17::execute(sc, verbose),
         p => {
             let mut o = RunOut::default();
             o.harness_error = Some(format!("unknown property {p}"));
